@@ -1,17 +1,40 @@
 #!/usr/bin/env python3
 """print the detection table of DESIGN.md 10.6 from seeded/*/meta.json"""
 import glob, json
-print("| seeded change | what it needs to manifest | quick check(s) |")
-print("|---|---|---|")
-for d in sorted(glob.glob('/verif/seeded/*')):
-    m = json.load(open(d + '/meta.json'))
-    c = m.get('confirmed_by_coordinator', {})
-    det = c.get('quick_check_exit_codes', {})
-    first = c.get('quick_check_exit_codes_when_first_seeded')
-    s = ", ".join("%s %s" % (k, {"1": "**caught**", "0": "missed", "2": "exit 2"}.get(str(v), v)) for k, v in det.items())
-    if first and first != det:
-        s += " (missed when first seeded; check strengthened)"
-    if c.get('caught_by'):
-        s += " - " + c['caught_by']
-    needs = " ".join(str(m.get('needs_to_manifest', '')).split())
-    print("| %s %s | %s | %s |" % (d.split('/')[-1], m['title'].replace('|', '/'), needs[:260].replace('|', '/') + ("..." if len(needs) > 260 else ""), s))
+import sys
+
+
+def main():
+    print("| seeded change | what it needs to manifest | quick check(s) |")
+    print("|---|---|---|")
+    for d in sorted(glob.glob('/verif/seeded/*')):
+        m = json.load(open(d + '/meta.json'))
+        c = m.get('confirmed_by_coordinator', {})
+        det = c.get('quick_check_exit_codes', {})
+        first = c.get('quick_check_exit_codes_when_first_seeded')
+        s = ", ".join("%s %s" % (k, {"1": "**caught**", "0": "missed", "2": "exit 2"}.get(str(v), v)) for k, v in det.items())
+        if first and first != det:
+            s += " (missed when first seeded; check strengthened)"
+        if c.get('caught_by'):
+            s += " - " + c['caught_by']
+        needs = " ".join(str(m.get('needs_to_manifest', '')).split())
+        print("| %s %s | %s | %s |" % (d.split('/')[-1], m['title'].replace('|', '/'), needs[:260].replace('|', '/') + ("..." if len(needs) > 260 else ""), s))
+
+
+def update_design():
+    """rewrite the table between the SEEDTABLE markers of DESIGN.md"""
+    import io, contextlib, re
+    p = '/verif/DESIGN.md'
+    s = open(p).read()
+    buf = io.StringIO()
+    with contextlib.redirect_stdout(buf):
+        main()
+    s = re.sub(r'<!-- SEEDTABLE-BEGIN -->.*?<!-- SEEDTABLE-END -->', lambda m: '<!-- SEEDTABLE-BEGIN -->\n' + buf.getvalue() + '<!-- SEEDTABLE-END -->', s, flags=re.S)
+    open(p, 'w').write(s)
+
+
+if __name__ == "__main__":
+    if len(sys.argv) > 1 and sys.argv[1] == "--design":
+        update_design()
+    else:
+        main()
